@@ -21,15 +21,32 @@ def is_inner(t):
     return False
 
 
+KINDS = ["Sync", "Async", "Empty"]
+
+
 def arm_of(p):
     """The payload kind this path serves: the variant a (positive) match on self.inner selected."""
     for c in p.conds:
         if c[0] == "match" and is_inner(c[1]) and not str(c[2]).startswith("!") and c[3] is not False:
             return c[2].split("::")[-1].split("(")[0]
+    # no positive test: the kind left over when every other one was refused (`if let Sync(..) {return ..} if let Async(..) {return ..} <Empty>`)
+    refused = set()
+    for c in p.conds:
+        if c[0] == "match" and is_inner(c[1]) and len(c) > 7 and c[7] is not None and c[7][0] == "notin":
+            refused |= {q.split("::")[-1] for q in c[7][1]}
+    left = [k for k in KINDS if k not in refused]
+    if refused and len(left) == 1:
+        return left[0]
     return None
 
 
+VIEWS = {"std::convert::AsMut::as_mut", "std::convert::AsRef::as_ref", "std::ops::DerefMut::deref_mut", "std::ops::Deref::deref", "std::borrow::BorrowMut::borrow_mut",
+         "std::boxed::Box::<T, A>::as_mut", "std::boxed::Box::<T, A>::as_ref"}
+
+
 def inner_obj(t, variant):
+    while is_call(t) and t[1] in VIEWS and len(t[2]) == 1:
+        t = t[2][0]         # `boxed.as_mut()` is the same reader as `&mut *boxed`
     return isinstance(t, tuple) and t[0] == "proj" and is_inner(t[1]) and t[2] == variant + ".0"
 
 
@@ -48,6 +65,7 @@ def check(run, views, tier):
         run.cfg = cfg
         F = crates["ipp"]
         has_async = "async" in F.features
+        KINDS[:] = ["Sync", "Empty"] + (["Async"] if has_async else [])
         # ---- R-CHAIN ---------------------------------------------------------------------
         specs = [("into_read", "std::io::Read::chain", "std::io::Cursor::<T>::new")]
         if has_async:
@@ -151,7 +169,9 @@ def check(run, views, tier):
             if b is None:
                 run.anchor_lost("R-FORWARD", fn)
                 continue
-            r = paths_of(b)[0].ret
+            # one constructor written in terms of another (empty() through Default::default() or the reverse) is judged with that one inlined
+            sib = {f2: F.body(f2) for f2, _v, _b in ctors if f2 != fn and F.body(f2) is not None}
+            r = paths_of(b, inline=sib)[0].ret
             if fn.endswith("::default") and is_call(r, "ipp::payload::IppPayload::empty") and not r[2]:
                 run.ob("R-FORWARD", "%s wraps its argument as %s" % (fn.split("::")[-1], variant), True, "delegates to IppPayload::empty()", site(b), key="R-FORWARD|ctor|%s" % fn)
                 continue
